@@ -58,7 +58,21 @@ fn eq<'a, T: Queryable>(lhs_state: State<'a, T>, rhs_state: State<'a, T>) -> boo
 fn eq_json<T: Queryable>(lhs: &T, rhs: &T) -> bool {
     match cmp_numbers(lhs, rhs) {
         Some(ord) => ord == Ordering::Equal,
-        None => lhs == rhs,
+        // arrays and objects are compared structurally, so that numbers nested in them
+        // are compared by value as well (`[1] == [1.0]`)
+        None => match (lhs.as_array(), rhs.as_array()) {
+            (Some(l), Some(r)) => l.len() == r.len() && l.iter().zip(r).all(|(a, b)| eq_json(a, b)),
+            (None, None) => match (lhs.as_object(), rhs.as_object()) {
+                (Some(l), Some(r)) => {
+                    l.len() == r.len()
+                        && l.iter()
+                            .all(|(k, a)| r.iter().any(|(k2, b)| k == k2 && eq_json(*a, *b)))
+                }
+                (None, None) => lhs == rhs,
+                _ => false,
+            },
+            _ => false,
+        },
     }
 }
 
